@@ -53,7 +53,7 @@ fn make(alpha: &[u8], sc: &Scheme, how: u64, cap: (usize, usize)) -> Al {
 }
 
 fn run(log: &mut Log, tag: &str, alpha: &[u8], sc: &Scheme, how: u64, cap: (usize, usize),
-       calls: &[(usize, Vec<u8>, Vec<u8>)]) {
+       calls: &[(usize, Vec<u8>, Vec<u8>, Option<serde_json::Value>)]) {
     let mut cfg = sc.cfg();
     cfg["cap"] = json!([cap.0, cap.1]);
     cfg["how"] = json!(how % 4);
@@ -61,8 +61,12 @@ fn run(log: &mut Log, tag: &str, alpha: &[u8], sc: &Scheme, how: u64, cap: (usiz
         return;
     }
     let mut al = make(alpha, sc, how, cap);
-    for (mode, x, y) in calls {
-        let r = log.call(MODES[*mode], json!({"x": syms(alpha, x), "y": syms(alpha, y)}), || {
+    for (mode, x, y, wit) in calls {
+        let mut args = json!({"x": syms(alpha, x), "y": syms(alpha, y)});
+        if let Some(w) = wit {
+            args["wit"] = w.clone();
+        }
+        let r = log.call(MODES[*mode], args, || {
             let a = match &mut al {
                 Al::Tab(a) => match mode {
                     0 => a.custom(x, y),
@@ -130,7 +134,7 @@ pub fn drive(log: &mut Log) {
                     let mut calls = vec![];
                     for y in &strs {
                         for mode in 0..4 {
-                            calls.push((mode, x.clone(), y.clone()));
+                            calls.push((mode, x.clone(), y.clone(), None));
                         }
                     }
                     if ge == 0 {
@@ -192,13 +196,180 @@ pub fn drive(log: &mut Log) {
             }
             prevlen = lx;
             let mode = rng.below(4) as usize;
-            calls.push((mode, x, y));
+            calls.push((mode, x, y, None));
         }
         if sc.ge == 0 {
             log.oblige("gap_extend_zero");
         }
         let cap = (rng.range(0, 16) as usize, rng.range(0, 16) as usize);
         run(log, "rnd", alpha, &sc, case, cap, &calls);
+    }
+    // (d) related inputs of more than a thousand symbols (equal; one contained in the other; shifted
+    // by one), with witness alignments known by construction, on an aligner that is used for small
+    // calls before and afterwards (the small calls are judged exactly, the big one by bounds)
+    let nbig = log.opts.n(24, 240);
+    for b in 0..nbig {
+        case += 1;
+        if !log.mine(case) {
+            continue;
+        }
+        let mut rng = Rng::new(seed, 2, case);
+        let alpha: &[u8] = acgt;
+        let mut sc = random_scheme(&mut rng, 4);
+        let rel = b % 4;
+        // equal inputs under a table whose best partner of a symbol is ANOTHER symbol: x = y = u^r for a
+        // unit u of distinct symbols, S[u[i+d]][u[i]] = 2, everything else -2: the alignment shifted by d
+        // beats the diagonal by far
+        let twisted = rel == 0 && (b / 4) % 2 == 0;
+        let l = match rng.below(6) {
+            0 => rng.range(2050, 2300),
+            _ => rng.range(1024, 1400),
+        } as usize;
+        let mut shift = 1usize;
+        let base: Vec<u8> = if twisted {
+            let per = rng.range(2, 4) as usize;
+            let mut unit: Vec<u8> = alpha.to_vec();
+            for i in 0..3 {
+                let j = i + rng.below((4 - i) as u64) as usize;
+                unit.swap(i, j);
+            }
+            unit.truncate(per);
+            shift = rng.range(1, per as i64 - 1) as usize;
+            let mut t = vec![vec![-2i32; 4]; 4];
+            for i in 0..per {
+                let a = alpha.iter().position(|&c| c == unit[(i + shift) % per]).unwrap();
+                let bb = alpha.iter().position(|&c| c == unit[i]).unwrap();
+                t[a][bb] = 2;
+            }
+            sc.table = t;
+            sc.simple = None;
+            (0..l).map(|i| unit[i % per]).collect()
+        } else {
+            match rng.below(4) {
+                0 => {
+                    let per = rng.range(1, 4) as usize;
+                    let unit = rng.seq(per, alpha);
+                    (0..l).map(|i| unit[i % per]).collect()
+                }
+                _ => rng.seq(l, alpha),
+            }
+        };
+        let (lpre, lpost) = (rng.range(0, 200) as usize, rng.range(0, 200) as usize);
+        let pre = rng.seq(lpre, alpha);
+        let post = rng.seq(lpost, alpha);
+        let ops = |v: &[(i64, i64)]| -> serde_json::Value {
+            serde_json::Value::Array(v.iter().map(|o| json!([o.0, o.1])).collect())
+        };
+        let pairs = |x: &[u8], y: &[u8]| -> Vec<(i64, i64)> {
+            x.iter().zip(y.iter()).map(|(a, b)| (if a == b { 0 } else { 1 }, 1)).collect()
+        };
+        let (x, y, wits, mode): (Vec<u8>, Vec<u8>, Vec<serde_json::Value>, usize) = match rel {
+            // x == y: the diagonal and the alignment shifted by one symbol
+            0 => {
+                let x = base.clone();
+                let y = base.clone();
+                let d = shift;
+                let mut sh: Vec<(i64, i64)> = vec![(3, 1); d];
+                sh.extend(pairs(&x[d..], &y[..l - d]));
+                sh.extend(vec![(2i64, 1i64); d]);
+                let mut sh2: Vec<(i64, i64)> = vec![(2, 1); d];
+                sh2.extend(pairs(&x[..l - d], &y[d..]));
+                sh2.extend(vec![(3i64, 1i64); d]);
+                let w0 = json!({"xstart": 0, "xend": l, "ystart": 0, "yend": l, "xlen": l, "ylen": l,
+                                "ops": ops(&pairs(&x, &y))});
+                let w1 = json!({"xstart": 0, "xend": l, "ystart": 0, "yend": l, "xlen": l, "ylen": l, "ops": ops(&sh)});
+                let w2 = json!({"xstart": 0, "xend": l, "ystart": 0, "yend": l, "xlen": l, "ylen": l, "ops": ops(&sh2)});
+                let mode = if twisted && (b / 8) % 2 == 0 { 1usize } else { [0usize, 1, 1, 2, 3][rng.below(5) as usize] };
+                if twisted && mode == 1 {
+                    log.oblige("big_equal_inputs_offdiagonal_table_global");
+                }
+                log.oblige("big_equal_inputs");
+                (x, y, vec![w0, w1, w2], mode)
+            }
+            // x contained in y: clipped (semiglobal / local) or padded with deletions (global / custom)
+            1 => {
+                let x = base.clone();
+                let mut y = pre.clone();
+                y.extend_from_slice(&x);
+                y.extend_from_slice(&post);
+                let mode = [0usize, 1, 2, 2, 3][rng.below(5) as usize];
+                let n = y.len();
+                let w = if mode >= 2 {
+                    let mut o = vec![(5i64, pre.len() as i64)];
+                    o.extend(pairs(&x, &x));
+                    o.push((5, post.len() as i64));
+                    json!({"xstart": 0, "xend": l, "ystart": pre.len(), "yend": pre.len() + l, "xlen": l, "ylen": n,
+                           "ops": ops(&o)})
+                } else {
+                    let mut o: Vec<(i64, i64)> = vec![(2, 1); pre.len()];
+                    o.extend(pairs(&x, &x));
+                    o.extend(vec![(2i64, 1i64); post.len()]);
+                    json!({"xstart": 0, "xend": l, "ystart": 0, "yend": n, "xlen": l, "ylen": n, "ops": ops(&o)})
+                };
+                log.oblige("big_x_contained_in_y");
+                (x, y, vec![w], mode)
+            }
+            // y contained in x
+            2 => {
+                let y = base.clone();
+                let mut x = pre.clone();
+                x.extend_from_slice(&y);
+                x.extend_from_slice(&post);
+                let m = x.len();
+                let mode = [0usize, 1, 3][rng.below(3) as usize];
+                let w = if mode == 3 {
+                    let mut o = vec![(4i64, pre.len() as i64)];
+                    o.extend(pairs(&y, &y));
+                    o.push((4, post.len() as i64));
+                    json!({"xstart": pre.len(), "xend": pre.len() + l, "ystart": 0, "yend": l, "xlen": m, "ylen": l,
+                           "ops": ops(&o)})
+                } else {
+                    let mut o: Vec<(i64, i64)> = vec![(3, 1); pre.len()];
+                    o.extend(pairs(&y, &y));
+                    o.extend(vec![(3i64, 1i64); post.len()]);
+                    json!({"xstart": 0, "xend": m, "ystart": 0, "yend": l, "xlen": m, "ylen": l, "ops": ops(&o)})
+                };
+                log.oblige("big_y_contained_in_x");
+                (x, y, vec![w], mode)
+            }
+            // y = x with a few substitutions (witness: the diagonal)
+            _ => {
+                let x = base.clone();
+                let mut y = base.clone();
+                for _ in 0..rng.range(1, 6) {
+                    let i = rng.below(l as u64) as usize;
+                    y[i] = *rng.pick(alpha);
+                }
+                let w0 = json!({"xstart": 0, "xend": l, "ystart": 0, "yend": l, "xlen": l, "ylen": l,
+                                "ops": ops(&pairs(&x, &y))});
+                (x, y, vec![w0], rng.below(4) as usize)
+            }
+        };
+        let mut calls = vec![];
+        let small = |rng: &mut Rng| -> (usize, Vec<u8>, Vec<u8>, Option<serde_json::Value>) {
+            let lx = rng.range(0, 8) as usize;
+            let x = rng.seq(lx, alpha);
+            let y = if rng.chance(1, 2) {
+                let ly = rng.range(0, 6) as usize;
+                let mut y = rng.seq(ly, alpha);
+                y.extend_from_slice(&x[..lx.min(3)]);
+                y
+            } else {
+                let ly = rng.range(0, 9) as usize;
+                rng.seq(ly, alpha)
+            };
+            ([0usize, 0, 1, 2, 3][rng.below(5) as usize], x, y, None)
+        };
+        for _ in 0..rng.range(0, 2) {
+            calls.push(small(&mut rng));
+        }
+        calls.push((mode, x, y, Some(serde_json::Value::Array(wits))));
+        for _ in 0..3 {
+            calls.push(small(&mut rng));
+        }
+        log.oblige("small_calls_after_big_call_same_aligner");
+        let cap = (rng.range(0, 16) as usize, rng.range(0, 16) as usize);
+        run(log, "big", alpha, &sc, case, cap, &calls);
     }
 }
 
